@@ -1,4 +1,4 @@
-import CentrifugeVerif.Model.WS.Reader
+import CentrifugeVerif.Proofs.WSReader
 import CentrifugeVerif.Spec.WSSpec
 /-!
 # C29 — the WebSocket frame reader conforms to RFC 6455 and RFC 7692
@@ -14,5 +14,58 @@ theorem goValidCloseCode_conforms : CodePolicy goValidCloseCode := by
     decide_eq_true_eq, beq_iff_eq, Bool.or_eq_false_iff, Bool.and_eq_false_iff, decide_eq_false_iff_not,
     beq_eq_false_iff_ne]
   omega
+
+/-! ## Frames written back, totality -/
+
+/-- Whenever the reader reports a protocol error (any of the header, fragmentation, masking, close
+code or close reason checks), the last frame it wrote to the peer is a Close frame with status
+1002. For every configuration and every byte stream. -/
+theorem protocol_error_sends_1002 (cfg : Cfg) (input : Bytes) (msg : String)
+    (h : (runReader cfg input).result = some (.proto msg)) :
+    LastClose 1002 (runReader cfg input) :=
+  (run_good cfg _ none { input := input } rfl rfl).1 msg h
+
+/-- Full statement (false, see the witnesses below):
+`(runReader cfg input).result = some .readLimit → LastClose 1009 (runReader cfg input)`.
+Proved: whenever the reader reports "read limit exceeded" and did not go through one of the two
+int64-overflow exits (64-bit length with the top bit set; accumulated message length ≥ 2^63), the
+last frame it wrote is a Close frame with status 1009 — for the wire-size limit as well as for the
+inflated-size limit. -/
+theorem too_big_sends_1009_partial (cfg : Cfg) (input : Bytes)
+    (h : (runReader cfg input).result = some .readLimit)
+    (h1 : Dev.len64Msb ∉ (runReader cfg input).devs)
+    (h2 : Dev.lengthOverflow ∉ (runReader cfg input).devs) :
+    LastClose 1009 (runReader cfg input) := by
+  rcases (run_good cfg _ none { input := input } rfl rfl).2.1 h with h | h | h
+  · exact h
+  · exact absurd h h1
+  · exact absurd h h2
+
+/-- No slice or index operation of the reader can go out of range, and the read loop always ends
+with an error value (totality; "never panics"), and the fuel of the model's loop is never the
+reason it ends. -/
+theorem reader_never_panics (cfg : Cfg) (input : Bytes) :
+    (∀ w, (runReader cfg input).result ≠ some (.panic w)) ∧
+    (runReader cfg input).result ≠ none ∧ (runReader cfg input).result ≠ some .fuel := by
+  have h := run_good cfg (fuelFor input) none { input := input } rfl rfl
+  refine ⟨h.2.2.1, h.2.2.2, ?_⟩
+  exact run_fuel cfg (fuelFor input) none { input := input } rfl (by simp [fuelFor]; omega)
+
+/-! Witnesses: the unrestricted `too_big_sends_1009` is false on the real reader (finding C29-4,
+C29-5): "read limit exceeded" with nothing written at all. -/
+def plainClient : Cfg := { server := false, deflate := false, readLimit := 0, inflatedLimit := 0, inflate := fun _ => none }
+
+example : (runReader plainClient [0x82, 0x7f, 0x80, 0, 0, 0, 0, 0, 0, 0]).result = some .readLimit ∧
+    (runReader plainClient [0x82, 0x7f, 0x80, 0, 0, 0, 0, 0, 0, 0]).written = [] := by decide
+example : (runReader plainClient [0x01, 0x01, 0x61, 0x80, 0x7f, 0x7f, 0xff, 0xff, 0xff, 0xff, 0xff, 0xff, 0xff]).result
+      = some .readLimit ∧
+    (runReader plainClient [0x01, 0x01, 0x61, 0x80, 0x7f, 0x7f, 0xff, 0xff, 0xff, 0xff, 0xff, 0xff, 0xff]).written = [] := by
+  decide
+/-- non-vacuity of `too_big_sends_1009_partial` and `protocol_error_sends_1002` -/
+example : (runReader { plainClient with readLimit := 3 } [0x82, 0x04, 1, 2, 3, 4]).result = some .readLimit ∧
+    (runReader { plainClient with readLimit := 3 } [0x82, 0x04, 1, 2, 3, 4]).written = [⟨8, [3, 241]⟩] ∧
+    (runReader { plainClient with readLimit := 3 } [0x82, 0x04, 1, 2, 3, 4]).devs = [] := by decide
+
+example : ∃ m, (runReader plainClient [0x83, 0x00]).result = some (.proto m) := ⟨_, rfl⟩
 
 end CentrifugeVerif.WS
